@@ -14,3 +14,192 @@ class Plain:
 
     def __repr__(self):
         return 'Plain(%s)' % ', '.join('%s=%r' % kv for kv in sorted(self.__dict__.items()) if kv[1] is not self)
+
+
+# ---------------------------------------------------------------------------------------------------------
+# reduction shapes for C17.  Every class defines __eq__ structurally only where pickle itself needs nothing;
+# comparison in the check is done by an external canonical walk, not by these methods.
+import collections, enum
+
+
+class Slots:
+    __slots__ = ('x', 'y')
+
+    def __init__(self, x=None, y=None):
+        self.x = x
+        self.y = y
+
+
+class SlotsDict:
+    __slots__ = ('x', '__dict__')
+
+    def __init__(self, x=None, **kw):
+        self.x = x
+        self.__dict__.update(kw)
+
+
+class StateDict:
+    """__getstate__/__setstate__ with a dict state that is NOT the instance dict"""
+
+    def __init__(self, a=None, b=None):
+        self.a = a
+        self.b = b
+        self.cache = 'not pickled'
+
+    def __getstate__(self):
+        return {'A': self.a, 'B': self.b}
+
+    def __setstate__(self, st):
+        self.a = st['A']
+        self.b = st['B']
+        self.cache = 'rebuilt'
+
+
+class StateTuple:
+    def __init__(self, a=None, b=None):
+        self.a = a
+        self.b = b
+
+    def __getstate__(self):
+        return (self.a, self.b)
+
+    def __setstate__(self, st):
+        self.a, self.b = st
+
+
+class StateFalsy:
+    """state is a falsy non-None value; pickle still calls __setstate__ with it"""
+
+    def __init__(self):
+        self.restored = 'never'
+
+    def __getstate__(self):
+        return 0
+
+    def __setstate__(self, st):
+        self.restored = ('setstate', st)
+
+
+class NewArgs:
+    def __new__(cls, a=None, b=None):
+        self = object.__new__(cls)
+        self.frozen = (a, b)
+        return self
+
+    def __getnewargs__(self):
+        return self.frozen
+
+    def __init__(self, *a, **k):
+        pass
+
+
+class ReduceArgs:
+    def __init__(self, a=None, b=None):
+        self.a = a
+        self.b = b
+
+    def __reduce__(self):
+        return (ReduceArgs, (self.a, self.b))
+
+
+class ReduceState:
+    def __init__(self, a=None):
+        self.a = a
+        self.extra = None
+
+    def __reduce__(self):
+        return (ReduceState, (self.a,), {'extra': self.extra})
+
+
+class ReduceList(list):
+    def __init__(self, tag=None):
+        list.__init__(self)
+        self.tag = tag
+
+    def __reduce__(self):
+        return (ReduceList, (self.tag,), None, iter(list(self)))
+
+
+class ReduceDict(dict):
+    def __init__(self, tag=None):
+        dict.__init__(self)
+        self.tag = tag
+
+    def __reduce__(self):
+        return (ReduceDict, (self.tag,), None, None, iter(list(self.items())))
+
+
+class ReduceAll(list):
+    """all five reduce fields"""
+
+    def __init__(self, tag=None):
+        list.__init__(self)
+        self.tag = tag
+        self.d = {}
+        self.extra = None
+
+    def __setitem__(self, k, v):
+        if isinstance(k, int) or isinstance(k, slice):
+            list.__setitem__(self, k, v)
+        else:
+            self.d[k] = v
+
+    def __reduce__(self):
+        return (ReduceAll, (self.tag,), {'extra': self.extra}, iter(list(self)), iter(list(self.d.items())))
+
+    def __setstate__(self, st):
+        self.extra = st['extra']
+
+
+def make_factory(a, b):
+    """module-level function used as a reduce callable"""
+    return ReduceArgs(a, b)
+
+
+class ReduceFunc:
+    def __init__(self, a=None):
+        self.a = a
+
+    def __reduce__(self):
+        return (make_factory, (self.a, 'via-function'))
+
+
+class ListSub(list):
+    pass
+
+
+class DictSub(dict):
+    pass
+
+
+class SetSub(set):
+    pass
+
+
+class TupleSub(tuple):
+    pass
+
+
+class IntSub(int):
+    pass
+
+
+class StrSub(str):
+    pass
+
+
+class Color(enum.Enum):
+    RED = 1
+    GREEN = 'g'
+
+
+class Perm(enum.IntFlag):
+    R = 4
+    W = 2
+
+
+Point = collections.namedtuple('Point', 'x y')
+
+
+def a_function(x):
+    return x
